@@ -525,10 +525,13 @@ type C08Flood struct {
 	Rounds  [][]int64 `json:"rounds"` // per round, per call: timeout in ms (0 = none)
 	Clients int       `json:"clients"`
 	Ser     bool      `json:"ser"`
+	// BusyMs: every handler takes this long (virtual time), so with more than eight calls in a round the later requests
+	// wait in the server for a free worker; that wait is part of the request's transit
+	BusyMs int `json:"busy_ms,omitempty"`
 }
 
 func genC08Flood(t *rapid.T) C08Flood {
-	c := C08Flood{Clients: rapid.IntRange(1, 3).Draw(t, "clients"), Ser: rapid.Bool().Draw(t, "ser"), Stats: rapid.IntRange(0, 3).Draw(t, "stats") == 0}
+	c := C08Flood{Clients: rapid.IntRange(1, 3).Draw(t, "clients"), Ser: rapid.Bool().Draw(t, "ser"), Stats: rapid.IntRange(0, 3).Draw(t, "stats") == 0, BusyMs: rapid.SampledFrom([]int{0, 0, 2, 40, 300}).Draw(t, "busy_ms")}
 	vals := []int64{0, 5000, 5001, 60000, 3600000, 86400000}
 	nr := rapid.IntRange(2, 5).Draw(t, "rounds")
 	for r := 0; r < nr; r++ {
@@ -550,9 +553,10 @@ func genC08Flood(t *rapid.T) C08Flood {
 
 func execC08Flood(t *testing.T, c C08Flood) (v Verdict) {
 	type hobs struct {
-		has bool
-		dl  time.Time
-		ran bool
+		has   bool
+		dl    time.Time
+		ran   bool
+		start time.Time
 	}
 	type call struct {
 		to       int64
@@ -568,7 +572,11 @@ func execC08Flood(t *testing.T, c C08Flood) (v Verdict) {
 			mu.Lock()
 			calls[idx].h.dl, calls[idx].h.has = ctx.Deadline()
 			calls[idx].h.ran = true
+			calls[idx].h.start = time.Now()
 			mu.Unlock()
+			if c.BusyMs > 0 {
+				time.Sleep(time.Duration(c.BusyMs) * time.Millisecond)
+			}
 			return req, nil
 		})
 		w := kit.NewWorld(kit.Topo{Kind: "direct", Serialize: c.Ser, Clients: c.Clients, Stats: c.Stats}, svc, nil, nil)
@@ -607,6 +615,7 @@ func execC08Flood(t *testing.T, c C08Flood) (v Verdict) {
 		v.failf("panic: %v", res.Panic)
 	}
 	distinct := map[int64]bool{}
+	var waitedMax time.Duration
 	for i, cl := range calls {
 		distinct[cl.to] = true
 		if !cl.h.ran {
@@ -617,11 +626,18 @@ func execC08Flood(t *testing.T, c C08Flood) (v Verdict) {
 			v.failf("call %d (timeout %dms): caller has deadline=%v, handler has deadline=%v", i, cl.to, cl.to > 0, cl.h.has)
 			continue
 		}
-		if cl.to > 0 && (cl.h.dl.After(cl.callerDL) || cl.h.dl.Before(cl.callerDL.Add(-time.Millisecond))) {
-			v.failf("call %d (timeout %dms): handler deadline differs from its own caller's by %v (another call's deadline?)", i, cl.to, cl.h.dl.Sub(cl.callerDL))
+		if cl.to > 0 {
+			// the request's transit: from the moment the caller's deadline was fixed to the moment its handler started
+			transit := cl.h.start.Sub(cl.callerDL.Add(-time.Duration(cl.to) * time.Millisecond))
+			if transit > waitedMax {
+				waitedMax = transit
+			}
+			if cl.h.dl.After(cl.callerDL.Add(transit)) || cl.h.dl.Before(cl.callerDL.Add(-time.Millisecond)) {
+				v.failf("call %d (timeout %dms, request in transit for %v): handler deadline differs from its own caller's by %v (allowed: -1ms .. +transit)", i, cl.to, transit, cl.h.dl.Sub(cl.callerDL))
+			}
 		}
 	}
-	v.Info = kit.CaseInfo{Labels: []string{"e2e.flood", fmt.Sprintf("flood.clients=%d", c.Clients)}, NonTrivial: len(distinct) >= 2, Key: fmt.Sprintf("%+v", c), Sample: map[string]any{"rounds": len(c.Rounds), "calls": len(calls), "clients": c.Clients, "distinct_timeouts": len(distinct)}}
+	v.Info = kit.CaseInfo{Labels: []string{"e2e.flood", fmt.Sprintf("flood.clients=%d", c.Clients), fmt.Sprintf("flood.requests_waited_for_a_worker=%v", waitedMax > time.Millisecond)}, NonTrivial: len(distinct) >= 2, Key: fmt.Sprintf("%+v", c), Sample: map[string]any{"rounds": len(c.Rounds), "calls": len(calls), "clients": c.Clients, "distinct_timeouts": len(distinct)}}
 	return
 }
 
